@@ -190,6 +190,22 @@ class VObj(Value):
         return 'VObj(@%s)' % (self.loc,)
 
 
+class VFrame(Value):
+    """A pandas Series/DataFrame batch abstracted as its sequence of rows (sort Seq(Row))."""
+
+    def __init__(self, t, tag=None):
+        self.t = t
+        self.tag = tag          # e.g. 'squared' for (frame ** 2)
+
+    def __repr__(self):
+        return 'VFrame(%s)' % self.t
+
+
+class VVec(VReal):
+    """A per-column vector of reals (result of a reduction over a DataFrame): modelled by one arbitrary component."""
+    is_vec = True
+
+
 class VCallable(Value):
     """Opaque user callable: an uninterpreted function that may raise."""
 
